@@ -12,9 +12,9 @@ def toHexW (n w : Nat) : String :=
   let s := toHex n
   String.ofList (List.replicate (w - s.length) '0') ++ s
 
-/-- generic loop: `eval ws` returns `none` (line not handled), `some none` (handled, nothing to compare:
+/-- generic loop: `eval ws res` (`res` = the implementation's result, needed by predicate-style specifications) returns `none` (line not handled), `some none` (handled, nothing to compare:
 outside the property / no spec) or `some (some expected)`; a line disagrees when `expected ≠ res`. -/
-def loop (tag : String) (eval : List String → Option (Option String)) : IO Unit := do
+def loop (tag : String) (eval : List String → String → Option (Option String)) : IO Unit := do
   let stdin ← IO.getStdin
   let stdout ← IO.getStdout
   let mut n := 0; let mut bad := 0; let mut skipped := 0; let mut outside := 0; let mut panics := 0
@@ -27,7 +27,7 @@ def loop (tag : String) (eval : List String → Option (Option String)) : IO Uni
     let res := parts[1]!
     let ws := (parts[0]!.splitOn " ").filter (· ≠ "")
     if ws.length < 2 then continue
-    match eval ws with
+    match eval ws res with
     | none => skipped := skipped + 1
     | some none => outside := outside + 1
     | some (some exp) =>
